@@ -96,11 +96,11 @@ def outcomeStr : Outcome → String
 
 def dbJ (ntasks npaths : Nat) (s : St) : Json := mkArr ((List.range ntasks).map fun t => Driver.Status.rcdJ npaths (s.rcd t))
 
-def resetTrace (s : St) : List Nat → St × List Json
+def resetTrace (fixed : Bool) (s : St) : List Nat → St × List Json
   | [] => (s, [])
   | t :: rest =>
-    let s' := resetDep true s t
-    let (s'', js) := resetTrace s' rest
+    let s' := if fixed then resetOne s t else resetDep true s t
+    let (s'', js) := resetTrace fixed s' rest
     (s'', mkArr [toJson t, Json.str (Driver.Status.resetObs true s t s')] :: js)
 
 def modelStep (fixed : Bool) (g : Graph) (ntasks npaths : Nat) (s : St) (o : COp) : St × Json :=
@@ -112,7 +112,7 @@ def modelStep (fixed : Bool) (g : Graph) (ntasks npaths : Nat) (s : St) (o : COp
     | .reset names =>
       [("target", targetJ (resetTarget g names)),
        ("reset", match resetTarget g names with
-                 | .tasks l => mkArr (resetTrace s l).2
+                 | .tasks l => mkArr (resetTrace fixed s l).2
                  | _ => mkArr [])]
     | .run order always plan =>
       let rs := runAll fixed always g plan s order
